@@ -13,7 +13,7 @@ PENDING_REASON = "check not built yet in this round (work in progress; DESIGN.md
 
 
 def main():
-    checks, na = [], []
+    checks, na, modules = [], [], []
     claimed = set((HERE / "claimed.txt").read_text().split())
     for pid in ALL:
         f = HERE / "props" / f"{pid.lower()}.py"
@@ -24,6 +24,9 @@ def main():
         if getattr(m, "NOT_APPLICABLE", None):
             na.append({"property_id": pid, "reason": m.NOT_APPLICABLE})
             continue
+        for mod in list(m.LEAN_MODULES) + list(getattr(m, "SETUP_MODULES", [])):
+            if mod not in modules:
+                modules.append(mod)
         checks.append(
             {
                 "property_id": pid,
@@ -39,7 +42,7 @@ def main():
         )
     man = {
         "version": 1,
-        "setup_cmd": "cd lean && lake build",
+        "setup_cmd": "cd lean && lake build " + " ".join(modules),
         "hooks": {
             "guard": "FUNC_ADL_XAOD_VERIF",
             "enable": "no hook is needed: every observable is a public return value, a rendered file or a module-level global; the checks import /repo's working tree through /venv (editable install)",
